@@ -100,7 +100,7 @@ ITEMS = [
                   SAME_BUT_CONTAINERS], canaries=['effect']),
 
     dict(src=B, path='impl BudgetEnforcer/fn observe', props=P,
-         rewrites=[(r'self\.handle_scalar\(value, style,', 'self.handle_scalar(value.as_str(), style,', 1, 'R15')],
+         rewrites=[(r'self\.handle_scalar\(value, style,', 'self.handle_scalar(value.as_str(), style,', None, 'R15')],
          requires=[('accepted_so_far', 'old(self).observe_pre(*ev)')],
          proofs=[dict(at='start', text='''
              broadcast use vstd::std_specs::hash::group_hash_axioms;
